@@ -433,6 +433,7 @@ theorem C04_fails_only_when_exhausted (select : List Nat → Option Nat) (outcom
     reported before any response byte; closed-without-answer and garbage are not retried. -/
 theorem gen_connection_level_kinds :
     ∀ ch, lookupFault "refuse" ch = some ("pre", true) ∧ lookupFault "reset0" ch = some ("pre", true) ∧
+          lookupFault "dnsfail" ch = some ("pre", true) ∧
           lookupFault "close0" ch = some ("pre", false) ∧ lookupFault "garbage" ch = some ("pre", false) := by decide
 
 /-! ### Non-vacuity -/
